@@ -120,6 +120,30 @@ def write_model(wd, name, extends, constants, spec="Spec", invariants=(), proper
     return name
 
 
+def witnesses(wd, extends, constants, goals, prefix, timeout=600, workers=4, **kw):
+    """Coverage goals as negated invariants: for each goal (a TLA+ state predicate over `extends`) TLC is asked to
+    check ~goal; the counterexample is a shortest behaviour of the model that reaches the goal.  Returns
+    [(goal name, behaviour)]; goals the bounded model cannot reach are reported in the second result."""
+    from . import tlc as _tlc
+    from concurrent.futures import ThreadPoolExecutor
+    names = list(goals)
+
+    def one(g):
+        m = "%s_%s" % (prefix, g)
+        write_model(wd, m, extends, constants, invariants=["NotGoal"], extra_defs="NotGoal == ~(%s)" % goals[g], **kw)
+        return g, _tlc.run(m + ".tla", m + ".cfg", cwd=wd.path, workers=workers, timeout=timeout, metadir=wd.file("meta_" + m))
+    out, unreached = [], []
+    with ThreadPoolExecutor(max_workers=4) as ex:
+        for g, r in ex.map(one, names):
+            if r.violated == "NotGoal" and r.trace:
+                out.append((g, r.trace))
+            elif r.ok:
+                unreached.append(g)
+            else:
+                raise RuntimeError("TLC failed on witness goal %s: %s" % (g, r.error or r.stdout[-800:]))
+    return out, unreached
+
+
 # ------------------------------------------------------------------------------ known findings
 def load_known():
     p = os.path.join(HERE, "known_findings.json")
